@@ -8,7 +8,7 @@ TIE = "Tie.C20"
 DRIVER = "c20_driver.py"
 SHARD = 12
 THEOREMS = [
-    "C20_iter_exact", "C20_contains_iff_iter", "C20_extends_is_reachability", "C20_flattened_members",
+    "C20_dedupe_keeps_first", "C20_iter_exact", "C20_contains_iff_iter", "C20_extends_is_reachability", "C20_flattened_members",
     "C20_flattened_members_nonempty", "C20_sub_spec", "C20_sub_members", "C20_add_members", "C20_add_spec",
     "C20_add_extenders_of_A_in_front", "C20_add_as_worded_partial", "C20_add_as_worded_refuted",
     "C20_radd_is_add", "C20_operands_unchanged", "C20_alsoProvides_appends",
@@ -124,7 +124,7 @@ def _fixed_cases():
 
 def generate(run, tier):
     rng = run.rng("gen")
-    n = 110 if tier == "quick" else 1500
+    n = 400 if tier == "quick" else 5000
     return _fixed_cases() + [_gen_case(rng, tier) for _ in range(n)]
 
 
